@@ -28,7 +28,8 @@ RUNS = {"quick": 256, "thorough": 12000, "thorough_s": 400}
 CHUNK = 4
 RUN_TIMEOUT = 90.0
 RULE = ("seeded cover-labelled networks of 1-6 motifs (K2-K4, C4, C5, diamond, paths) glued at single vertices, tree-like "
-        "and with motif-level loops, 2..18 vertices, labels in the documented key-[vertices]-[edges]-id form with "
+        "and with motif-level loops, 2..18 vertices, in a quarter of the networks 1-3 (or n+1) vertices that belong to NO motif "
+        "(degree zero; empty product = 1), labels in the documented key-[vertices]-[edges]-id form with "
         "scheduler-permuted vertex numbering, member order and edge insertion order (= message update schedule); "
         "iterations in 1..40; histories of 2-6 theoretical(phi) queries in arbitrary phi order (0, 1, grid values, "
         "repeats) on one object, each compared with a fresh object and with a reference fixed point; operand faults "
@@ -163,7 +164,15 @@ def finish_network(prng, n, motifs):
             m["uid"] = i
     order = [(mi, ei) for mi, m in enumerate(out) for ei in range(len(m["edges"]))]
     prng.shuffle(order)
-    return {"n": n, "motifs": out, "order": order}
+    net = {"n": n, "motifs": out, "order": order}
+    if prng.random() < 0.25:
+        # vertices that belong to no motif (degree zero: ordinary in configuration-model networks); their product of
+        # per-motif failure probabilities is empty = 1
+        top = max(perm) if perm else 0
+        k = prng.choice((1, 1, 2, 3, n + 1))
+        net["isolated"] = sorted({top + 1 + i * prng.choice((1, 2)) for i in range(k)})
+        net["isolated_at"] = prng.choice(("first", "last", "middle"))
+    return net
 
 
 def generate(prng, tier, index):
@@ -221,11 +230,17 @@ def generate(prng, tier, index):
 
 def build_graph(net):
     G = nx.Graph()
-    for mi, ei in net["order"]:
+    iso, at = net.get("isolated") or [], net.get("isolated_at", "last")
+    if at == "first":
+        G.add_nodes_from(iso)
+    for k, (mi, ei) in enumerate(net["order"]):
+        if at == "middle" and k == len(net["order"]) // 2:
+            G.add_nodes_from(iso)
         m = net["motifs"][mi]
         a, b = m["edges"][ei]
         label = f"{m['key']}-{list(m['verts'])}-{[tuple(e) for e in m['edges']]}-{m['uid']}"
         G.add_edge(a, b, CoverLabel=label)
+    G.add_nodes_from(iso)           # no-op when already added
     return G
 
 
@@ -234,7 +249,8 @@ class Reference:
 
     def __init__(self, net):
         self.motifs = net["motifs"]
-        self.n = len({v for m in self.motifs for v in m["verts"]})
+        self.isolated = len(net.get("isolated") or [])
+        self.n = len({v for m in self.motifs for v in m["verts"]}) + self.isolated
         self.of = {}
         for t, m in enumerate(self.motifs):
             for v in m["verts"]:
@@ -293,6 +309,7 @@ class Reference:
             for t in ts:
                 p *= H[(v, t)]
             tot += p
+        tot += self.isolated            # empty product for a vertex in no motif
         return 1.0 - tot / self.n
 
     def solve(self, phi, edge_order=None, in_place=False, max_sweeps=400):
@@ -461,6 +478,10 @@ def shrink(sc):
             yield dict(sc, queries=qs[:i] + qs[i + 1:])
     net = sc["net"]
     ms = net["motifs"]
+    if net.get("isolated"):
+        yield dict(sc, net={k: v for k, v in net.items() if k not in ("isolated", "isolated_at")})
+        if len(net["isolated"]) > 1:
+            yield dict(sc, net=dict(net, isolated=net["isolated"][:1]))
     if len(ms) > 1:
         # drop the last motif (the construction guarantees the rest stays a valid cover)
         keep = ms[:-1]
